@@ -124,6 +124,25 @@ Section Discipline.
     end.
 
   Definition confined (i : tid) (p : prog) : bool := ok_from i (mkAst [] []) p.
+
+  (* residue-tolerant variant: a global OWNED by the thread may also be read before the call has written it — nobody else can
+     write it, the value is whatever the thread's own earlier calls left there (part of the initial state st0) *)
+  Definition owned_by (i : tid) (g : gvar) : bool := match disc g with Owned j => Nat.eqb j i | Locked _ => false end.
+
+  Fixpoint ok_from_res (i : tid) (a : ast) (p : prog) : bool :=
+    match p with
+    | [] => true
+    | s :: r =>
+        (match s with
+         | Write g _ => negb (W g) || may_access i a g
+         | Read g => negb (W g) || (may_access i a g && (mem g (a_fresh a) || owned_by i g))
+         | Local => true
+         | Acq l => negb (mem l (a_held a))
+         | Rel l => mem l (a_held a)
+         end) && ok_from_res i (ast_step a s) r
+    end.
+
+  Definition confined_res (i : tid) (p : prog) : bool := ok_from_res i (mkAst [] []) p.
 End Discipline.
 
 (* ---------------------------------------------------------------- the engine's globals and the call skeletons *)
@@ -136,8 +155,12 @@ Definition GDsOut : gvar := 5.          (* Exceptions.dataset_output *)
 Definition PL : lock := 0.              (* parser_lock *)
 
 Definition const (v : val) : obs -> val := fun _ => v.
-Definition incr (g : gvar) : obs -> val :=
-  fun o => match o with (g', v) :: _ => if Nat.eqb g' g then (v + 1)%Z else 0%Z | [] => 0%Z end.
+(* the value last read from g, plus one (count = <value just read> + 1) *)
+Fixpoint incr (g : gvar) (o : obs) : val :=
+  match o with
+  | (g', v) :: r => if Nat.eqb g' g then (v + 1)%Z else incr g r
+  | [] => 0%Z
+  end.
 
 (* The yield tags of /repo (vtlengine._verif.yield_point), as the steps they stand for.  `tok` identifies the call. *)
 Inductive tag :=
@@ -165,12 +188,13 @@ Definition W_all : gvar -> bool := fun _ => true.
 (* the parse state and every per-thread global *)
 Definition W_reg : gvar -> bool := fun g => Nat.eqb g GParse || Nat.leb 100 g.
 
-(* BEFORE THE FIXES (engine before commits 55a366b and d6f8f69): every global process-wide *)
+(* BEFORE THE FIXES (engine before commits 55a366b, d6f8f69 and 522fbc4): every global process-wide *)
 Definition gmap_before_fix : gvar -> gvar := fun g => g.
-(* FAITHFUL (current code): the viral-propagation registry and Exceptions.dataset_output are ContextVars = one cell per thread
-   (100 + 10*i + g); VirtualCounter and TimePeriodConfig are still process-wide *)
+(* FAITHFUL (current code): the viral-propagation registry and Exceptions.dataset_output are ContextVars and the VirtualCounter
+   counters live in a threading.local = one cell per thread (100 + 10*i + g); TimePeriodConfig is still process-wide (and never
+   read on the paths of the four API calls) *)
 Definition gmap_impl (i : tid) : gvar -> gvar :=
-  fun g => if Nat.eqb g GRegistry || Nat.eqb g GDsOut then 100 + 10 * i + g else g.
+  fun g => if Nat.eqb g GRegistry || Nat.eqb g GDsOut || Nat.eqb g GVcDs || Nat.eqb g GVcDc then 100 + 10 * i + g else g.
 (* SPEC (the proposed repair): registry, counters, representation and dataset_output are per-thread (thread-local /
    contextvars); thread i's copy of global g is 100 + 10*i + g.  The parse state stays shared under parser_lock. *)
 Definition gmap_spec (i : tid) : gvar -> gvar := fun g => if Nat.eqb g GParse then g else 100 + 10 * i + g.
